@@ -2,20 +2,21 @@
 from sfa.report import Ctx
 from sfa.rules import grouprules
 from sfa.rules import sortrules
+from sfa.rules import windowrules
 
 LEVEL_TEXT = (
-    'Static decision of the grouping clauses of C13 (window enumeration is declared not decidable: integer arithmetic over size / step / '
-    'shift with no structural clause): (a) partition by construction — in each of the 4 mask-based group iterators the members of group '
+    'Static decision of the grouping clauses of C13 and of the structural clauses of window iteration (the arithmetic of which windows exist for given size / step / '
+    'shift is not decided): (a) partition by construction — in each of the 4 mask-based group iterators the members of group '
     'idx are `locations == idx`, with (groups, locations) from one array_to_groups_and_locations call, idx from enumerate(groups), no '
     'reordering in between, and the yielded key being that group\'s own element; (b) each group container slices labels and data with '
     'the same selection on the grouped axis and keeps the other axis whole (TypeBlocks.group yields the selection it extracted with); '
     '(c) the sort-and-slice fast path sorts with the default stable kind, slices blocks and labels with the same slice, labels each run '
-    'by its first value and emits the final run; the default sort kind is stable (C12). Not decided: window enumeration; agreement of '
+    'by its first value and emits the final run; the default sort kind is stable (C12); (d) in axis_window_items both bounds of the window slice are floored (no wrap-around), the anchor label is labels.iloc[right bound + label_shift] read from the iterated axis with negative positions rejected, each window is extracted with that slice on that same axis (per path, on the symbolic store), and the left bound advances by step on every path. Not decided: which windows exist (count / validity arithmetic); agreement of '
     'the two group implementations on values; NaN keys.')
 
 CLAIM = dict(
     text=LEVEL_TEXT,
-    technique='def-use shape of the partition idiom over all group iterators + label/data co-slicing (PAIR) + run-loop structure of the sort fast path',
+    technique='def-use shape of the partition idiom over all group iterators + label/data co-slicing (PAIR) + run-loop structure of the sort fast path + clamp-form and per-path provenance of window slices',
     design_ref='DESIGN.md section 3 C13',
 )
 
@@ -25,3 +26,4 @@ def run(ctx: Ctx) -> None:
     grouprules.group_pairs(ctx)
     grouprules.sort_fast_path(ctx)
     sortrules.kind_forwarding(ctx)
+    windowrules.window_rules(ctx)
